@@ -26,6 +26,8 @@ def sources(tier):
                 ("three", ledger.FEES[0], q, deposit, 2), ("three", ledger.FEES[1], q, deposit, 2),
                 ("spot1+fut", ledger.FEES[0], q, deposit, 2, 0.0, True), ("fut+fut", ledger.FEES[1], q, deposit, 2, 0.0, True),
                 ("spot1+fut", ledger.FEES[6], q, deposit, 2), ("three", ledger.FEES[6], q, deposit, 1),
+                # frictionless, reached through rebalances, three operations deep: rebalance, the same again (trades nothing), a direct trade
+                ("spot1+fut", ledger.FEES[0], q[:2], deposit, 3, 0.0, True),
                 # prices of the order of 1e-3: weight rebalances hold tens of millions of units, and a contract-count target then
                 # scales such a position down to a remainder that is tiny relative to the quantity held
                 ("penny", ledger.FEES[0], ledger.quotes_of(ledger.unit_scale("penny", scale)), deposit, 2, 0.0, True)]
@@ -244,9 +246,14 @@ def _work(unit):
     out = {"transitions": 0, "violations": [], "nontrivial": 0, "outcomes": set()}
     b0, _, _ = ledger.initial(universe, fee, quotes, deposit, rate)
     first_sb = snap(b0)      # the preview state: the untouched initial account of this source
+    reb = len(src) > 6 and src[6]
+    # sources whose states are reached through rebalances are also asked for the very targets of those rebalances: the request
+    # that reached the state (perhaps twice, the second time trading nothing) is then REPEATED after other operations
+    again = {m: tuple(a for m_, a in ledger.rebalances_for(len(cs)) if m_ == m) for m in ("weight", "nr-contracts")} if reb else {}
     for sb, ref, hist in chunk:
         for measure, targets in ((("weight", W_TARGETS), ("nr-contracts", N_TARGETS)) if len(cs) == 2 else
                                  (("weight", W_TARGETS3), ("nr-contracts", N_TARGETS3))):
+            targets = list(targets) + [a for a in again.get(measure, ()) if a not in targets]
             for alloc in targets:
                 msgs, traded = check_rebalance(sb, ref, cs, fee, measure, alloc)
                 out["transitions"] += 1
